@@ -125,6 +125,9 @@ def run(ctx):
                 bad("format 4 field round trip (sequence)", {"fn": "field_4", "args": [pin, "call %d" % i]}, pin, repr(f4))
                 break
     bump("iso3_sequence")
+    from harness.props.pinblock_common import threaded_encoders
+    dist["encoder_calls_under_threads"] = threaded_encoders(ctx.rng, viol)
+    evals += dist["encoder_calls_under_threads"]
     from harness.props.pinblock_common import after_rejected_calls
     dist["calls_after_rejected_calls"] = after_rejected_calls(ctx.rng, viol)
     evals += dist["calls_after_rejected_calls"]
